@@ -195,9 +195,12 @@ class C04(Check):
         "T4": "override restart: y0 := last row | overrides (overrides win), _time_shift := last absolute time, then the "
               "integrator is re-initialised",
         "T5": "clear_results resets every result-group field initialised in __init__ and re-initialises the integrator",
+        "T7": "caller-owned arrays: a public array argument that is shifted in place (+=, -=) is first converted with a copying "
+              "constructor (np.array / .copy()); np.asarray / np.asanyarray / copy=False alias the caller's array, whose requested points "
+              "would be altered for every later call",
         "T6": "refusal condition is `requested_end <= reached` in both continuation entry points",
     }
-    floors = {"T1": 8, "T2": 3, "T3": 3, "T4": 3, "T5": 4, "T6": 2}
+    floors = {"T1": 8, "T2": 3, "T3": 3, "T4": 3, "T5": 4, "T6": 2, "T7": 2}
     decided = [
         "the accumulated result is indexed by absolute time and every time comparison compares like with like",
         "a continuation is refused exactly when the requested end is not later than the time reached (in absolute time)",
@@ -221,6 +224,7 @@ class C04(Check):
         self.t4(mod)
         self.t5(mod)
         self.t6(mod)
+        self.t7(mod)
         self.t2("integrators/int_scipy.py", "Scipy", confirmed=True)
 
     def run_thorough(self) -> None:
@@ -384,6 +388,51 @@ class C04(Check):
         else:
             self.violated("T5", SIM, q, "reinitialise", clr, "clear_results does not re-initialise the integrator: the next run continues from the old t0/y0")
 
+    def t7(self, mod) -> None:
+        COPYING = ("np.array", "numpy.array", "np.copy", "list", "np.fromiter", "copy.deepcopy", "copy.copy")
+        ALIASING = ("np.asarray", "np.asanyarray", "numpy.asarray", "np.ascontiguousarray")
+        for name in ("simulate_time_course", "simulate_protocol_time_course"):
+            fn = mod.func(f"{CLS}.{name}")
+            q = f"{CLS}.{name}"
+            params = {a.arg for a in fn.args.args + fn.args.kwonlyargs} - {"self"}
+            owned: dict[str, bool] = {p: False for p in params}  # name -> is a private copy?
+            verdicts = []
+            for s in strip_docstring(fn.body):
+                for n in [s] + [x for x in ast.walk(s) if isinstance(x, ast.stmt)]:
+                    if isinstance(n, ast.Assign) and isinstance(n.targets[0], ast.Name):
+                        t, v = n.targets[0].id, n.value
+                        srcs = {x.id for x in ast.walk(v) if isinstance(x, ast.Name)} & set(owned)
+                        if isinstance(v, ast.Call):
+                            fname = norm(v.func)
+                            kw = {k.arg: norm(k.value) for k in v.keywords}
+                            if fname in COPYING and kw.get("copy") not in ("False", "None"):
+                                owned[t] = True
+                            elif isinstance(v.func, ast.Attribute) and v.func.attr == "copy":
+                                owned[t] = True
+                            elif (fname in ALIASING or kw.get("copy") == "False") and srcs:
+                                owned[t] = all(owned[x] for x in srcs)
+                            elif srcs:
+                                owned[t] = True  # result of some other computation: a new object
+                        elif isinstance(v, ast.Subscript) and srcs:
+                            base = v.value.id if isinstance(v.value, ast.Name) else None
+                            # boolean-mask indexing copies; slicing does not - stay conservative: inherits ownership
+                            owned[t] = owned.get(base, True)
+                        elif isinstance(v, ast.Name) and v.id in owned:
+                            owned[t] = owned[v.id]
+                    if isinstance(n, ast.AugAssign) and isinstance(n.target, ast.Name) and n.target.id in owned and isinstance(n.op, (ast.Add, ast.Sub)):
+                        verdicts.append((n, owned[n.target.id]))
+            if not verdicts:
+                self.undecided_ob("T7", SIM, q, "in-place-shift-on-private-copy", fn, "no in-place shift of the requested time points found")
+                continue
+            bad = [n for n, ok in verdicts if not ok]
+            if bad:
+                self.violated("T7", SIM, q, "in-place-shift-on-private-copy", bad[0],
+                              f"`{norm(bad[0])}` shifts an array that may still be the caller's own object (not converted with a copying constructor): "
+                              "the caller's requested time points are modified, so a reused array requests different times on the next call",
+                              witness="tp = np.array([1., 2., 3.]); s.simulate_protocol_time_course(p, tp, time_points_as_relative=True) three times: the third call drops requested points")
+            else:
+                self.holds("T7", SIM, q, "in-place-shift-on-private-copy", verdicts[0][0], f"{len(verdicts)} in-place shift(s), all on a private copy of the argument")
+
     def t6(self, mod) -> None:
         for name, req in (("simulate", "t_end"), ("simulate_time_course", "time_points[-1]")):
             fn = mod.func(f"{CLS}.{name}")
@@ -447,6 +496,8 @@ class C04(Check):
             Variant("always-skipfirst", SIM, H, "            elif skipfirst:", "            elif True:", expect="T3|"),
             Variant("steady-state-skipfirst", SIM, f"{CLS}.simulate_to_steady_state", "skipfirst=False", "skipfirst=True", expect="T3|"),
             Variant("failure-stored-as-frame", SIM, H, "            self._errors.append(e)", "            self.variables = [e]", expect="T3|"),
+            Variant("asarray-aliases-caller", SIM, f"{CLS}.simulate_protocol_time_course", "time_points = np.array(time_points, dtype=float)", "time_points = np.asarray(time_points, dtype=float)", expect="T7|", quick=True),
+            Variant("asarray-aliases-caller-tc", SIM, f"{CLS}.simulate_time_course", "time_points = np.array(time_points, dtype=float)", "time_points = np.asarray(time_points, dtype=float)", expect="T7|"),
             Variant("scipy-no-t0-advance", "integrators/int_scipy.py", "Scipy.integrate_time_course", "        self.t0 = t[-1]\n", "", expect="T2|", quick=True),
             Variant("scipy-no-y0-advance", "integrators/int_scipy.py", "Scipy.integrate_time_course", "        self.y0 = y[-1]\n", "", expect="T2|"),
             Variant("scipy-y0-first-row", "integrators/int_scipy.py", "Scipy.integrate_time_course", "self.y0 = y[-1]", "self.y0 = y[0]", expect="T2|"),
